@@ -7,7 +7,7 @@ import lib_ints as li
 PID = "C16"
 RULE = ("the finite matrix, run in full in both tiers: every binary operator (15, plus `..`) x every ordered pair of the 8 value "
         "kinds in plain form, the five op-assign operators x 64 kind pairs x {variable, element, property} target, and every "
-        "typed context x every kind (destructuring contexts at boundary sizes: empty, one-element and collect-only object and "
+        "typed context x every kind, each context also as the second evaluation of the same code (a loop that first feeds a documented kind), conditions that are not the first of their statement, `==`/`!=` with the operands one level down in a list / twice in a list / in an object (destructuring contexts at boundary sizes: empty, one-element and collect-only object and "
         "list patterns x {declaration, assignment, three parameter forms, nested in a list pattern, nested under an object "
         "key, nested twice, `for` target over a list / an object, whole `for` target}); two representatives per kind where it could matter (true/false, 7/0, \"ab\"/\"\", "
         "non-empty/empty list and object, declared/anonymous function, global/bound builtin) in all left/right combinations. "
@@ -81,6 +81,12 @@ def cell_script(spec):
         body = f"print({l} {op} {r})\n"
     elif form == "var":
         body = f"x := {l}\nx {op}= {r}\nprint(x)\n"
+    elif form == "in-list":
+        body = f"print([{l}] {op} [{r}])\n"
+    elif form == "in-list-twice":
+        body = f"print([{l}, {l}] {op} [{r}, {r}])\n"
+    elif form == "in-object":
+        body = f"print({{\"k\": {l}}} {op} {{\"k\": {r}}})\n"
     elif form == "elem":
         body = f"xs := [{l}]\nxs[0] {op}= {r}\nprint(xs[0])\n"
     else:
@@ -104,7 +110,7 @@ def is_subseq(want, have):
 def judge_cell(spec, r):
     op, form, lk, rk = spec["op"], spec["form"], spec["lk"], spec["rk"]
     out, st, err = r["stdout"], r["status"], r["stderr"]
-    what = f"{spec['l']} {op}{'=' if form != 'plain' else ''} {spec['r']} ({lk} {op} {rk}, {form})"
+    what = f"{spec['l']} {op}{'=' if form in TARGETS else ''} {spec['r']} ({lk} {op} {rk}, {form})"
     if st not in ("0", "103"):
         return False, f"{what}: exit status {st}: {err[:200]}"
     if allowed(op, lk, rk):
@@ -134,7 +140,7 @@ def judge_cell(spec, r):
             return False, f"{what}: diagnostic does not name the offending type '{off}': {err[:200]!r}"
         return True, ""
     ops = OP_RUN.findall(msg.replace("can't", "cannot"))
-    if op not in ops and (form == "plain" or op + "=" not in ops):
+    if op not in ops and (form not in TARGETS or op + "=" not in ops):
         return False, f"{what}: diagnostic does not name the operator: {err[:200]!r}"
     if not is_subseq([NAME[lk], NAME[rk]], words):
         return False, f"{what}: diagnostic does not name '{NAME[lk]}' and '{NAME[rk]}' in operand order: {err[:200]!r}"
@@ -170,6 +176,12 @@ CONTEXTS = [
     ("indexed-value", "print(@V[0])\n", {"string", "list"}, {"string": ['"ab"'], "list": ["l1"]}, {"object"}),
     ("range-indexed-value", "print(@V[0:0])\n", {"string", "list"}, {}, set()),
     ("type-function", "print(@V->type())\n", set(KINDS) - {"null"}, {}, set()),
+    # a condition that is not the first one evaluated by its statement
+    ("while-condition-later", "zq := [true, @V, false]\nzi := 0\nwhile zq[zi] {\n    zi += 1\n}\nprint(2)\n", {"bool"}, {}, set()),
+    ("else-if-condition", "if false {\n    print(0)\n} else if @V {\n    print(1)\n}\nprint(2)\n", {"bool"}, {}, set()),
+    ("else-if-condition-third", "if false {\n    print(0)\n} else if false {\n    print(3)\n} else if @V {\n    print(1)\n}\nprint(2)\n",
+     {"bool"}, {}, set()),
+    ("and-right-operand-later", "for [zi, zv] in [true, @V] {\n    print(true && zv)\n}\n", {"bool"}, {}, set()),
 ]
 
 # destructuring contexts at boundary sizes: pattern (empty, one element, collect only) x binding position x source kind.
@@ -199,7 +211,40 @@ for _pat, _kind, _reps in PATTERNS:
 for _pat in ("{}", "{a}", "{..r}"):
     CONTEXTS.append((f"destructure:for-whole-target:{_pat}", "for " + _pat + " in @V {\n    print(1)\n}\nprint(2)\n", set(),
                      {"list": ["l1"], "object": ["o1"], "string": ['"ab"']}, {"null", "bool", "int", "func", "builtin"}))
+# every context once more as the SECOND evaluation of the same piece of code: the construct sits in a loop body that first
+# receives a value of a documented kind and then @V.  (`@2` contexts are judged against the output of the first round alone.)
+GOOD = {"bool": "true", "int": "1", "string": '"ab"', "list": "l1", "object": "o1", "func": "f", "builtin": "print"}
+LATER = {}
+
+
+def _indent(t):
+    return "".join("    " + l + "\n" for l in t.rstrip("\n").split("\n"))
+
+
+for _c in list(CONTEXTS):
+    _name, _tmpl, _ok, _over, _skip = _c
+    if _name in ("while-condition-later", "and-right-operand-later") or not _ok:
+        continue
+    _gk = sorted(_ok, key=KINDS.index)[0]
+    _good = (_over.get(_gk) or [GOOD[_gk]])[0]
+    _body = _indent(_tmpl.replace("@V", "zv"))
+    LATER[_name + "@2"] = (_good, "for [zi, zv] in [" + _good + "@REST] {\n" + _body + "}\n")
+    CONTEXTS.append((_name + "@2", LATER[_name + "@2"][1].replace("@REST", ", @V"), _ok, _over, _skip))
 CTX = {c[0]: c for c in CONTEXTS}
+
+
+def later_baseline_script(name):
+    """the same loop with the first (well-kinded) round only"""
+    return PRELUDE + LATER[name][1].replace("@REST", "")
+
+
+_BASE_OUT = {}
+
+
+def later_baseline(name):
+    if name not in _BASE_OUT:
+        _BASE_OUT[name] = core.run_cli(later_baseline_script(name))["stdout"]
+    return _BASE_OUT[name]
 
 
 def ctx_script(spec):
@@ -221,8 +266,9 @@ def judge_ctx(spec, r):
         return True, ""
     if st != "103":
         return False, f"{what}: a value of the wrong kind was accepted, printing {out[:80]!r}"
-    if out != "":
-        return False, f"{what}: rejected, yet {out[:80]!r} was printed"
+    before = later_baseline(name) if name in LATER else ("true\n" if name == "and-right-operand-later" else "")
+    if out != before:
+        return False, f"{what}: rejected, yet {out[:80]!r} was printed (the well-kinded part prints {before[:40]!r})"
     words = set(TYPE_WORD.findall(strip_head(err)))
     if name.startswith("destructure:for-whole-target"):
         words |= {NAME[k]} if "list" in words or "object" in words else set()
@@ -256,6 +302,13 @@ def all_specs():
                 for l in REPS[lk]:
                     for r in REPS[rk]:
                         specs.append({"op": op, "form": "plain", "lk": lk, "rk": rk, "l": l, "r": r})
+    for op in ("==", "!="):                 # the same operands one level down: the element comparison is the same cell
+        for form in ("in-list", "in-list-twice", "in-object"):
+            for lk in KINDS:
+                for rk in KINDS:
+                    for l in REPS[lk]:
+                        for r in REPS[rk]:
+                            specs.append({"op": op, "form": form, "lk": lk, "rk": rk, "l": l, "r": r})
     for op in ASSIGN_OPS:
         for form in TARGETS:
             for lk in KINDS:
@@ -293,14 +346,16 @@ def run(ctx, model_ok):
         else:
             cell = (spec["op"], spec["form"], spec["lk"], spec["rk"])
             ok_cell = allowed(spec["op"], spec["lk"], spec["rk"])
-            ctx.dist(("plain" if spec["form"] == "plain" else "op-assign") + ":" + ("allowed" if ok_cell else "rejected"))
+            ctx.dist(("plain" if spec["form"] == "plain" else "op-assign" if spec["form"] in TARGETS else "nested") + ":" +
+                     ("allowed" if ok_cell else "rejected"))
         cells.add(cell)
         ctx.nontrivial(cell)
         ok, why = judge(spec, r)
         if not ok:
             bad.append((spec, src, r, why))
     ctx.cov["matrix_cells"] = {"plain": sum(1 for c in cells if c[1] == "plain"),
-                               "op_assign": sum(1 for c in cells if c[0] != "ctx" and c[1] != "plain"),
+                               "op_assign": sum(1 for c in cells if c[0] != "ctx" and c[1] in TARGETS),
+                               "nested_equality": sum(1 for c in cells if c[0] != "ctx" and c[1].startswith("in-")),
                                "contexts": sum(1 for c in cells if c[0] == "ctx")}
     seen = set()
     failing = set()
